@@ -13,11 +13,12 @@ RULE = ("random trees with many ties (few distinct sizes/mtimes, equal names in 
         "comparator. distinct = distinct (tree, argv); nontrivial = result has >= 2 rows")
 
 KEYS = [("name", "s"), ("ext", "s"), ("path", "s"), ("size", "n"), ("hardlinks", "n"), ("uid", "n"),
-        ("modified", "d"), ("length(name)", "n"), ("mode", "s"), ("is_dir", "s"), ("size + 1", "n")]
+        ("modified", "d"), ("length(name)", "n"), ("mode", "s"), ("is_dir", "s"), ("size + 1", "n"),
+        ("size - 100", "n"), ("hardlinks - 3", "n"), ("size * 2 - 150", "n"), ("length(name) - 20", "n")]
 
 
 def tie_tree(r):
-    sizes = r.sample([0, 1, 2, 9, 10, 11, 99, 100, 101, 1000, 1024, 20000], r.range(2, 5))
+    sizes = r.sample([0, 1, 2, 5, 9, 10, 11, 40, 60, 95, 99, 100, 101, 300, 1000, 1024, 20000], r.range(3, 7))
     mtimes = [1700000000 + 86400 * k for k in r.sample(range(40), r.range(2, 4))]
     ents = fstree.gen_tree(r, max_entries=r.choice([6, 14, 30]), kinds="fdl", sizes=sizes, mtimes=mtimes,
                            adversarial=r.chance(1, 5))
